@@ -163,3 +163,11 @@ def path_feasible(enc, extra=(), timeout_ms=5000):
 def false_twin():
     """twin goal 'false': refutable exactly when the hypotheses (path condition included) are satisfiable"""
     return [Constraint(EQ, P.const(1), "[twin: false]")]
+
+
+def eq_cleared(enc, name, lhs, rhs, hyps=()):
+    """lhs = rhs decided after multiplying out every inverse variable (exact; valid wherever the denominators are non-zero, which
+    the defining constraints I*den = 1 of the encoder assume anyway). Avoids the driver's direct attempt with inverse variables."""
+    p = enc.clear_inverses(P.sub(lhs, rhs))[0]
+    tw = [Constraint(EQ, P.sub(p, P.const(1)), name + " [twin: = 1]")] if p else None
+    return Ob(name, [Constraint(EQ, p, name + " [denominators cleared]")], hyps, tw)
